@@ -781,7 +781,10 @@ def _prepare_results(results, data, debug):
     if debug:
         results = pd.DataFrame({**data, **results})
     else:
-        results = pd.DataFrame(results)
+        # Targets that depend on parameters only are scalars. Pass the number of rows
+        # explicitly, so that they are broadcast even if all targets are scalars.
+        n_rows = len(next(iter(data.values()))) if len(data) > 0 else 0
+        results = pd.DataFrame(results, index=pd.RangeIndex(n_rows))
     results = _reorder_columns(results)
 
     return results
